@@ -343,6 +343,11 @@ def fill_outcomes(rep, model):
     for (op, members), o in zip(ops, outs):
         if not any(e["ev"].startswith("s3.") for e in o.get("events", [])):
             continue                      # the model request did not reach the backend (covered by C01/C02)
+        # a streamed payload the backend returns arrives byte for byte
+        if "blob" in filled[snake(op)].values() and sc_method(op, model) != "HEAD":
+            checked += 1
+            if o.get("body_text") != "F-body \r\n\x00 bytes":
+                dev.setdefault(op, []).append(("<streaming payload>", "body", "F-body \\r\\n\\0 bytes", o.get("body_text", "")[:60]))
         hs = {}
         for k, v in o.get("headers", []):
             hs.setdefault(k.lower(), []).append(v)
@@ -438,6 +443,10 @@ def document_outcomes(rep, model):
                 dev[op] = "member %s = %r is written as <%s>: %r" % (name, want, xml_name, children.get(xml_name))
                 break
     return dev, n
+
+
+def sc_method(op, model):
+    return model.http(op)["method"]
 
 
 def model_request(op, body=None):
